@@ -3,12 +3,46 @@ import gfapy
 class References:
 
   def _prepare_and_check_ref(self, ref):
+    """
+    The line for an item to add to a connected group (a string or a line),
+    with the back-reference to the group added to it.
+    All checks are done before anything is changed.
+    """
+    refkey = "paths" if (self.record_type == "O") else "sets"
     if isinstance(ref, str):
-      ref = self._line_for_ref_symbol(ref)
-    self._check_ref_class(ref)
-    self._check_ref_connection(ref)
-    self._check_ref_not_self(ref)
-    return ref
+      found = self._gfa.line(ref)
+      if found is not None:
+        self._check_ref_class(found)
+        self._check_ref_not_self(found)
+      elif ref == self.name:
+        self._check_ref_not_self(self)
+      else:
+        gfapy.Field._validate_gfa_field(ref, "identifier_gfa2")
+      return self._line_for_ref_symbol(ref)
+    elif isinstance(ref, gfapy.Line):
+      self._check_ref_class(ref)
+      self._check_ref_connection(ref)
+      self._check_ref_not_self(ref)
+      ref._add_reference(self, refkey)
+      return ref
+    else:
+      raise gfapy.ArgumentError(
+        "Line: {}\n".format(self)+
+        "Cannot add items of class {}".format(ref.__class__.__name__))
+
+  def _forget_item(self, line):
+    """
+    Remove the back-reference to the group from a line which the group does
+    not list any more (and the line, if it was a placeholder for the group).
+    """
+    refkey = "paths" if (self.record_type == "O") else "sets"
+    for item in self.get("items"):
+      if isinstance(item, gfapy.OrientedLine):
+        item = item.line
+      if item is line:
+        return
+    line._delete_reference(self, refkey)
+    self._disconnect_unreferenced_placeholders([line])
 
   def _check_ref_class(self, item):
     if item.__class__ not in [
@@ -16,6 +50,7 @@ class References:
          gfapy.line.segment.GFA2,
          gfapy.line.gap.Gap,
          gfapy.line.group.Ordered,
+         gfapy.line.unknown.Unknown,
          self.__class__]:
       raise gfapy.ArgumentError(
         "Line: {}\n".format(self)+
@@ -24,7 +59,7 @@ class References:
         "can be added\n(* = unordered groups to unordered groups only).")
 
   def _check_ref_connection(self, item):
-    if item.line.gfa != self._gfa:
+    if item.gfa is not self._gfa:
       raise gfapy.ArgumentError(
         "Line: {}\n".format(self)+
         "Item: {}".format(repr(item))+
@@ -32,7 +67,7 @@ class References:
         "to the same GFA object as the group")
 
   def _check_ref_not_self(self, item):
-    if (item.line == self):
+    if (item is self):
       raise gfapy.RuntimeError(
         "Line: {}\n".format(self)+
         "Item is the line itself\n"+
